@@ -14,6 +14,10 @@ pub fn par_range(n: usize, rep: &Report, chunk: usize, f: impl Fn(usize) + Sync)
     let next = AtomicUsize::new(0);
     let done = AtomicUsize::new(0);
     let chunk = chunk.max(1);
+    // chunks are taken in a fixed scattered order (k -> k * stride mod m, stride coprime to m), so that a run
+    // stopped by the wall cap has covered a spread of the enumeration rather than its head
+    let m = n.div_ceil(chunk);
+    let stride = scatter_stride(m);
     std::thread::scope(|s| {
         for _ in 0..jobs().min(n.max(1)) {
             std::thread::Builder::new()
@@ -22,10 +26,11 @@ pub fn par_range(n: usize, rep: &Report, chunk: usize, f: impl Fn(usize) + Sync)
                     if rep.out_of_time() {
                         break;
                     }
-                    let start = next.fetch_add(chunk, Ordering::Relaxed);
-                    if start >= n {
+                    let k = next.fetch_add(1, Ordering::Relaxed);
+                    if k >= m {
                         break;
                     }
+                    let start = ((k as u128 * stride as u128) % m as u128) as usize * chunk;
                     for i in start..(start + chunk).min(n) {
                         f(i);
                         done.fetch_add(1, Ordering::Relaxed);
@@ -37,8 +42,30 @@ pub fn par_range(n: usize, rep: &Report, chunk: usize, f: impl Fn(usize) + Sync)
     let d = done.load(Ordering::Relaxed);
     if d < n {
         rep.cap(format!("stopped after {d} of {n} work items"));
+        rep.set("order_of_work_items", serde_json::json!("chunks taken in the fixed scattered order k -> k*stride mod m; a capped run covers a spread of the enumeration"));
     }
     d
+}
+
+fn gcd(a: usize, b: usize) -> usize {
+    if b == 0 {
+        a
+    } else {
+        gcd(b, a % b)
+    }
+}
+
+/// A stride near 0.618 * m that is coprime to m (1 for m <= 2).
+pub fn scatter_stride(m: usize) -> usize {
+    if m <= 2 {
+        return 1;
+    }
+    let mut s = ((m as f64) * 0.618_033_988_75) as usize;
+    s = s.max(1);
+    while gcd(s, m) != 1 {
+        s += 1;
+    }
+    s % m
 }
 
 pub fn par_for<T: Sync>(items: &[T], rep: &Report, chunk: usize, f: impl Fn(usize, &T) + Sync) -> usize {
